@@ -27,7 +27,7 @@ func (w *World) allNodeConst() (int64, bool) {
 		found := false
 		eachInstr(fn, false, func(_ *ssa.Function, in ssa.Instruction) {
 			bo, ok := in.(*ssa.BinOp)
-			if !ok || bo.Op != token.EQL {
+			if !ok || bo.Op != token.EQL && bo.Op != token.NEQ {
 				return
 			}
 			if c, ok := constInt(bo.Y); ok {
@@ -83,7 +83,7 @@ func ruleGAbbrev(w *World, r *Report) {
 		r.bad("ANCHOR", "G-ABBREV", "", "the 'any node' type-test constant could not be derived from the node-test predicate")
 		return
 	}
-	want := map[string]string{".": "self", "..": "parent", "//": "descendant-or-self"}
+	want := map[string]string{"//": "descendant-or-self"} // '.' and '..' are judged on token streams (checkStepAI)
 	count := map[string]int{}
 	for _, fn := range w.AllFuncs {
 		if !w.BuildTime[fn] {
@@ -114,13 +114,12 @@ func ruleGAbbrev(w *World, r *Report) {
 			}
 		})
 	}
-	for text, min := range map[string]int{".": 1, "..": 1, "//": 3} {
+	for text, min := range map[string]int{"//": 3} {
 		if count[text] < min {
 			r.bad("G-ABBREV", "sites:"+text, "", fmt.Sprintf("found %d expansion sites for %q, expected at least %d", count[text], text, min))
 		}
 	}
-	w.checkStepAxis(r, g)
-	w.checkNodeTypeTests(r, g, all)
+	w.checkStepAI(r, g, all)
 	w.checkSequence(r, g)
 	w.checkAbsolute(r, g)
 }
@@ -712,37 +711,14 @@ func ruleGExpect(w *World, r *Report) {
 		r.bad("ANCHOR", "G-EXPECT", "", err.Error())
 		return
 	}
-	tokTest := func(ifi *ssa.If) (int, bool) {
-		// typ == K / testOp() true edge = match
-		bo, ok := ifi.Cond.(*ssa.BinOp)
-		if ok && (bo.Op == token.EQL || bo.Op == token.NEQ) && (g.isTokLoad(bo.X) || g.isTokLoad(bo.Y)) {
-			if bo.Op == token.EQL {
-				return 0, true
-			}
-			return 1, true
-		}
-		return 0, false
-	}
-	// (2)
-	if nt := w.nodeTestParser(g); nt != nil {
-		r.FuncsAnalysed[fnName(nt)] = true
-		ok, at := g.noMatchEndsInPanic(w, nt.Blocks[0], tokTest)
-		if ok {
-			r.ok("G-EXPECT", "nodetest-default", w.instrPos(at.Instrs[len(at.Instrs)-1]), "a token that starts no node test ends in a panic (=> Compile error)")
-		} else {
-			r.bad("G-EXPECT", "nodetest-default", w.instrPos(at.Instrs[len(at.Instrs)-1]), "a token that starts no node test does not end in a panic: an expression cut after an operator, '/', '[', '(' or ',' is accepted")
-		}
-	} else {
-		r.bad("ANCHOR", "G-EXPECT:nodetest", "", "node-test parser not found")
-	}
+	// (2) and (5): the step parser followed on token streams
+	w.checkStepExpect(r, g)
 	// (1)
 	w.checkPrimaryAgreement(r, g)
 	// (3) scanner
 	w.checkScannerPanics(r, g)
 	// (4) defaults
 	w.checkDispatchDefaults(r)
-	// (5)
-	w.checkPrefixLookup(r, g)
 }
 
 // tokensTested: token constants fn compares the current token with (==).
@@ -1102,3 +1078,192 @@ func (w *World) checkPrefixLookup(r *Report, g *Grammar) {
 }
 
 var _ = strings.Join
+
+// ---- the step parser on token streams (grammar_absint.go) ----
+
+type stepToks struct {
+	name, axe, dot, dotdot, at, star, lp, rp int64
+	ok                                       bool
+}
+
+func (w *World) stepTokens(g *Grammar) stepToks {
+	t := stepToks{name: -1, axe: -1, dot: g.tokOfText("."), dotdot: g.tokOfText(".."), at: g.tokOfText("@"), star: g.tokOfText("*"), lp: g.tokOfText("("), rp: g.tokOfText(")")}
+	for _, o := range w.scanFrom(g, 'a') {
+		if o.Cut || o.Panicked || o.Tok < 0 {
+			continue
+		}
+		txt := strings.TrimRight(o.Text, " ")
+		switch {
+		case strings.HasSuffix(txt, "::"):
+			t.axe = o.Tok
+		case !strings.Contains(txt, ":"):
+			t.name = o.Tok
+		}
+	}
+	t.ok = t.name >= 0 && t.axe >= 0 && t.dot >= 0 && t.dotdot >= 0 && t.at >= 0 && t.star >= 0 && t.lp >= 0 && t.rp >= 0
+	return t
+}
+
+// stepExpect: every completed path of the step parser on this stream built
+// its axis node with the expected axis / type test / names.
+func (w *World) stepExpect(r *Report, g *Grammar, fn *ssa.Function, key, what string, stream []tokSpec, axis string, typ int64, local, prefix *string) {
+	pos := w.pos(fn.Pos())
+	if eof, ok := g.eofTok(); ok {
+		stream = append(append([]tokSpec{}, stream...), tokSpec{Tok: eof, Keep: true})
+	}
+	outs := w.runStep(g, fn, stream, nil, false)
+	n := 0
+	for _, o := range outs {
+		if o.Cut || o.Panicked || len(o.Axis) < 4 {
+			continue
+		}
+		n++
+		ax, ok0 := o.Axis[0].Str()
+		tt, ok1 := o.Axis[1].Int()
+		ln, ok2 := o.Axis[2].Str()
+		px, ok3 := o.Axis[3].Str()
+		bad := ""
+		switch {
+		case !ok0 || ax != axis:
+			bad = fmt.Sprintf("axis %s", o.Axis[0].String())
+		case !ok1 || tt != typ:
+			bad = fmt.Sprintf("type test %s", o.Axis[1].String())
+		case local != nil && (!ok2 || ln != *local):
+			bad = fmt.Sprintf("local name %s", o.Axis[2].String())
+		case prefix != nil && (!ok3 || px != *prefix):
+			bad = fmt.Sprintf("prefix %s", o.Axis[3].String())
+		}
+		if bad != "" {
+			r.bad("G-ABBREV", key, pos, fmt.Sprintf("%s is expanded with %s (axis %s, type test %s, name %s, prefix %s); XPath 1.0: %s", what, bad, o.Axis[0].String(), o.Axis[1].String(), o.Axis[2].String(), o.Axis[3].String(), describeStepWant(axis, typ, local)))
+			return
+		}
+	}
+	if n == 0 {
+		r.bad("G-ABBREV", key, pos, fmt.Sprintf("%s: the step parser builds no axis node (it panics or was not followed)", what))
+		return
+	}
+	r.ok("G-ABBREV", key, pos, fmt.Sprintf("%s => %s", what, describeStepWant(axis, typ, local)))
+}
+
+func describeStepWant(axis string, typ int64, local *string) string {
+	s := fmt.Sprintf("axis %q with type test %d", axis, typ)
+	if local != nil {
+		s += fmt.Sprintf(" and local name %q", *local)
+	}
+	return s
+}
+
+func (w *World) checkStepAI(r *Report, g *Grammar, all int64) {
+	fn := w.stepParser(g)
+	t := w.stepTokens(g)
+	elem, ok1 := w.nodeTypeConst("ElementNode")
+	attr, ok2 := w.nodeTypeConst("AttributeNode")
+	text, ok3 := w.nodeTypeConst("TextNode")
+	comm, ok4 := w.nodeTypeConst("CommentNode")
+	if fn == nil || !t.ok || !ok1 || !ok2 || !ok3 || !ok4 {
+		r.bad("ANCHOR", "G-ABBREV:step", "", "step parser, its tokens or the node-type constants not found")
+		return
+	}
+	r.FuncsAnalysed[fnName(fn)] = true
+	empty, x := "", "x"
+	nm := func(n string) tokSpec { return tokSpec{Tok: t.name, Name: n} }
+	w.stepExpect(r, g, fn, fn.Name()+":.", `"."`, []tokSpec{{Tok: t.dot}}, "self", all, &empty, &empty)
+	w.stepExpect(r, g, fn, fn.Name()+":..", `".."`, []tokSpec{{Tok: t.dotdot}}, "parent", all, &empty, &empty)
+	w.stepExpect(r, g, fn, "step-axis:@", "'@name'", []tokSpec{{Tok: t.at}, nm("x")}, "attribute", attr, &x, &empty)
+	w.stepExpect(r, g, fn, "step-axis:default", "a step without axis", []tokSpec{nm("x")}, "child", elem, &x, &empty)
+	w.stepExpect(r, g, fn, "step-axis:name::", "'ancestor::name'", []tokSpec{{Tok: t.axe, Name: "ancestor"}, nm("x")}, "ancestor", elem, &x, &empty)
+	w.stepExpect(r, g, fn, "step-principal", "'attribute::name'", []tokSpec{{Tok: t.axe, Name: "attribute"}, nm("x")}, "attribute", attr, &x, &empty)
+	w.stepExpect(r, g, fn, "nodetest-axis", "'following-sibling::name'", []tokSpec{{Tok: t.axe, Name: "following-sibling"}, nm("x")}, "following-sibling", elem, &x, &empty)
+	w.stepExpect(r, g, fn, "nodetest-star", "'*'", []tokSpec{{Tok: t.star}}, "child", elem, &empty, &empty)
+	w.stepExpect(r, g, fn, "nodetest-star-type", "'@*'", []tokSpec{{Tok: t.at}, {Tok: t.star}}, "attribute", attr, &empty, &empty)
+	for _, c := range []struct {
+		n string
+		k int64
+	}{{"text", text}, {"comment", comm}, {"node", all}} {
+		w.stepExpect(r, g, fn, "nodetype:"+c.n, c.n+"()", []tokSpec{{Tok: t.name, Name: c.n, CanBeFunc: true}, {Tok: t.lp}, {Tok: t.rp}}, "child", c.k, &empty, &empty)
+	}
+}
+
+func (w *World) checkStepExpect(r *Report, g *Grammar) {
+	fn := w.stepParser(g)
+	t := w.stepTokens(g)
+	if fn == nil || !t.ok {
+		r.bad("ANCHOR", "G-EXPECT:nodetest", "", "step parser or its tokens not found")
+		return
+	}
+	r.FuncsAnalysed[fnName(fn)] = true
+	pos := w.pos(fn.Pos())
+	// (2) a token that starts no step: every path panics
+	starts := map[int64]bool{t.name: true, t.axe: true, t.dot: true, t.dotdot: true, t.at: true, t.star: true, t.lp: true}
+	var accepted []string
+	n := 0
+	var toks []int64
+	for k := range g.TokNames {
+		toks = append(toks, k)
+	}
+	sort.Slice(toks, func(i, j int) bool { return toks[i] < toks[j] })
+	for _, k := range toks {
+		if starts[k] {
+			continue
+		}
+		for _, o := range w.runStep(g, fn, []tokSpec{{Tok: k}}, nil, false) {
+			if o.Cut {
+				continue
+			}
+			n++
+			if !o.Panicked {
+				accepted = append(accepted, g.tokName(k))
+			}
+		}
+	}
+	switch {
+	case n == 0:
+		r.undec("G-EXPECT", "nodetest-default", pos, "the step parser could not be followed")
+	case len(accepted) > 0:
+		r.bad("G-EXPECT", "nodetest-default", pos, fmt.Sprintf("a token that starts no node test does not end in a panic (%v): an expression cut after an operator, '/', '[', '(' or ',' is accepted", dedup(accepted)))
+	default:
+		r.ok("G-EXPECT", "nodetest-default", pos, "a token that starts no node test ends in a panic (=> Compile error)")
+	}
+	// (5) prefixes against a namespace table
+	tab := map[string]string{"p": "urn:p", "e": ""}
+	judge := func(stream []tokSpec, ns map[string]string, has bool) (panics, completes, bound int) {
+		if eof, ok := g.eofTok(); ok {
+			stream = append(append([]tokSpec{}, stream...), tokSpec{Tok: eof, Keep: true})
+		}
+		for _, o := range w.runStep(g, fn, stream, ns, has) {
+			switch {
+			case o.Cut:
+			case o.Panicked:
+				panics++
+			default:
+				completes++
+				if o.NSBound {
+					bound++
+				}
+			}
+		}
+		return
+	}
+	pb, cb, bb := judge([]tokSpec{{Tok: t.name, Name: "x", Prefix: "p"}}, tab, true)
+	pu, cu, _ := judge([]tokSpec{{Tok: t.name, Name: "x", Prefix: "q"}}, tab, true)
+	pe0, ce0, be0 := judge([]tokSpec{{Tok: t.name, Name: "x", Prefix: "e"}}, tab, true)
+	switch {
+	case pe0 > 0 || be0 != ce0 || ce0 == 0:
+		r.bad("G-EXPECT", "unbound-prefix", pos, "a prefix bound to the empty namespace URI is treated as unbound (or its binding is not recorded): whether a prefix is bound must be decided by the presence of the key, not by the value")
+	case pb+cb == 0 || pu+cu == 0:
+		r.undec("G-EXPECT", "unbound-prefix", pos, "prefixed name tests could not be followed")
+	case cu > 0:
+		r.bad("G-EXPECT", "unbound-prefix", pos, "a prefix that is not bound in the namespace map is silently accepted")
+	case pb > 0 || bb != cb:
+		r.bad("G-EXPECT", "unbound-prefix", pos, "a prefix bound in the namespace map does not get its URI attached (or panics)")
+	default:
+		r.ok("G-EXPECT", "unbound-prefix", pos, "a prefix missing from the namespace map panics (=> Compile error); a bound one gets its URI")
+	}
+	pn, cn, bn := judge([]tokSpec{{Tok: t.name, Name: "x", Prefix: "q"}}, nil, false)
+	pe, ce, be := judge([]tokSpec{{Tok: t.name, Name: "x", Prefix: ""}}, tab, true)
+	if pn == 0 && cn > 0 && bn == 0 && pe == 0 && ce > 0 && be == 0 {
+		r.ok("G-EXPECT", "prefix-lookup-guard", pos, "lookup performed when the prefix is non-empty and a namespace map was given")
+	} else {
+		r.bad("G-EXPECT", "prefix-lookup-guard", pos, fmt.Sprintf("the namespace lookup is not guarded by exactly `prefix != \"\" && namespaces != nil` (no table: %d panics, %d bound; empty prefix: %d panics, %d bound)", pn, bn, pe, be))
+	}
+}
